@@ -70,7 +70,7 @@ def check(pid, tier):
         undecided += r['undecided']
         known += r['known']
     import kani_lane as K
-    if pid in K.PROP_HARNESSES:
+    if pid in K.PROP_HARNESSES and not os.environ.get('VERIF_NO_KANI'):
         r = K.lane(pid, tier, cov, ledger, findings, assumptions)
         violations += r['violations']
         undecided += r['undecided']
